@@ -274,6 +274,21 @@ def check_rules_case(case):
                                                                                  "false_rules": [RULES[i]["name"] for i, keep in zip(seq, tv) if not keep]}})
     # third entry point: the same transactions as rows of one statement file (what `tally up` does) - every row must get what
     # normalize_merchant gives that transaction on its own
+    if case.get("stmt", True):
+        # the same unmodified file loaded in most_specific mode first, then (no reset in between) in the default mode
+        from tally.merchant_utils import get_all_rules, get_transforms
+        H.reset_state()
+        path = R.write_scratch("m.rules", _file_text(p, seq))
+        R.load_path(path, "most_specific")
+        transforms2 = get_transforms(path)
+        rules2 = get_all_rules(path)
+        for ti, t in enumerate(TXNS):
+            evals += 1
+            got = R.normalize_result(rules2, transforms2, t)
+            if (got["merchant"], got["category"], got["subcategory"]) != (b[ti]["merchant"], b[ti]["category"], b[ti]["subcategory"]):
+                viol.append({"kind": "default-mode-load-after-most-specific-load-differs", "detail": {"txn": t, "got": got, "fresh_default_mode_load": b[ti]}})
+                break
+        H.reset_state()
     try:
         st = statement_results(p, seq) if case.get("stmt", True) else None
     except Exception as e:  # noqa
